@@ -10,7 +10,7 @@ use alloc::vec::Vec;
 use core::{iter::Chain, slice::Iter};
 use tracing::{info, warn};
 
-use crate::rr::{DNSClass, Name, RData, Record, RecordType};
+use crate::rr::{DNSClass, Name, RData, Record, RecordType, SerialNumber};
 
 /// Set of resource records associated to a name and type
 #[derive(Clone, Debug, PartialEq, Eq)]
@@ -295,7 +295,11 @@ impl RecordSet {
                     match &soa_record.data {
                         RData::SOA(existing_soa) => {
                             if let RData::SOA(new_soa) = &record.data {
-                                if new_soa.serial <= existing_soa.serial {
+                                // "lower (according to [RFC1982]) than or equal to": sequence space
+                                // arithmetic, so that the serial can wrap around
+                                let new_serial = SerialNumber::from(new_soa.serial);
+                                let existing_serial = SerialNumber::from(existing_soa.serial);
+                                if !(new_serial > existing_serial) {
                                     info!(
                                         "update ignored serial out of data: {:?} <= {:?}",
                                         new_soa, existing_soa
